@@ -1128,6 +1128,9 @@ Error Assembler::_emit(InstId inst_id, const Operand_& o0, const Operand_& o1, c
         // Prefer a single MOVN/MOVZ instruction over a logical instruction.
         multiple_op_count = encode_mov_sequence_64(multiple_op_data, imm_value, o0.id() & 31, x);
         if (multiple_op_count == 1 && !o0.as<Gp>().is_sp()) {
+          if (!check_gp_id(o0, kZR))
+            goto InvalidPhysId;
+
           opcode.reset(multiple_op_data[0]);
           goto EmitOp;
         }
@@ -1499,6 +1502,10 @@ Error Assembler::_emit(InstId inst_id, const Operand_& o0, const Operand_& o1, c
               goto InvalidInstruction;
             }
 
+            if (!check_gp_id(o0, o1, kZR)) {
+              goto InvalidPhysId;
+            }
+
             if (shift_value >= op_size) {
               goto InvalidImmediate;
             }
@@ -1524,6 +1531,11 @@ Error Assembler::_emit(InstId inst_id, const Operand_& o0, const Operand_& o1, c
         shift_type -= uint32_t(ShiftOp::kUXTB);
         if (shift_type > 7 || shift_value > 4) {
           goto InvalidImmediate;
+        }
+
+        // CMN|CMP (extend) - SP allowed in Rn, ZR allowed in Rm.
+        if (!check_gp_id(o0, kSP) || !check_gp_id(o1, kZR)) {
+          goto InvalidPhysId;
         }
 
         // Validate whether the register operands match extend option.
@@ -2088,6 +2100,9 @@ Error Assembler::_emit(InstId inst_id, const Operand_& o0, const Operand_& o1, c
         if (!check_signature(o0, o1, o2))
           goto InvalidInstruction;
 
+        if (!check_gp_id(o0, o1, o2, kZR))
+          goto InvalidPhysId;
+
         opcode.reset(op_data.register_op);
         opcode.add_imm(x, 31);
         opcode.add_reg(o2, 16);
@@ -2103,6 +2118,9 @@ Error Assembler::_emit(InstId inst_id, const Operand_& o0, const Operand_& o1, c
 
         if (!check_signature(o0, o1))
           goto InvalidInstruction;
+
+        if (!check_gp_id(o0, o1, kZR))
+          goto InvalidPhysId;
 
         uint64_t imm = o2.as<Imm>().value_as<uint64_t>();
 
